@@ -297,7 +297,10 @@ def oracle(case):
         d1 = canon_dump(p.text)
     except SyntaxError as e:
         return core.viol('not-an-expression', '%r\n%s' % (e, p.text[:600]))
-    d2 = canon_dump(q.text)
+    try:
+        d2 = canon_dump(q.text)
+    except SyntaxError:
+        return core.skip('plain-value-unparseable')     # the uncommented value itself prints wrongly: not this property's business
     if d1 != d2:
         return core.viol('syntax-tree-changed', 'commented output\n%s\nuncommented output\n%s' % (p.text[:700], q.text[:400]))
     if case.get('depth') is not None:
